@@ -153,6 +153,20 @@ def _root_producer(F, b, t, depth=0):
     shorter or longer chain does."""
     from cfg import Defs
     name = str(callee(t)[2])
+    if name in ("call", "call_mut", "call_once") and t["args"]:
+        # a local closure wrapping one fallible step (`let iterate = |p| Self::iterate(..); iterate(p)`)
+        import boolsum
+        cb = F.body(boolsum.closure_def_of_type(b.opty(t["args"][0])) or "")
+        if cb is not None:
+            inner = []
+            for bi_, ct in cb.calls():
+                ty_ = cb.lty(ct["dest"]["l"]) if not ct["dest"]["p"] else None
+                nm_ = str(callee(ct)[2])
+                if ty_ and carries_solver_error(ty_["s"]) and nm_ not in PASS_ON and nm_ not in PROPAGATE:
+                    inner.append(nm_)
+            if len(set(inner)) == 1:
+                return inner[0]
+        return name
     if name not in PASS_ON or depth > 8 or not t["args"]:
         return name
     a = t["args"][0]
@@ -297,12 +311,15 @@ def run(F, scopes, rule_id="R24"):
     vis = {b.path: b.get("vis") for b in F.bodies if not b.is_closure()}
 
     def rows_for(root, producer):
-        return [i for i, t in enumerate(table) if root.endswith(t["fn"]) and t["producer"] == producer]
+        # a row for a chain `a>b` (the failure of either step is absorbed at one place) also accepts the two steps absorbed at
+        # two places of the same function (`if let Ok(x) = a() { let r = b(x); if r.is_ok() { return r } }`)
+        return [i for i, t in enumerate(table) if root.endswith(t["fn"]) and (t["producer"] == producer or producer in t["producer"].split(">"))]
 
     # a site is keyed by (function, call that first produced the Result).  The *kind* of consumer (`.ok()`, `is_ok()`, `if let Ok`)
-    # and Result -> Result adaptors in between are spelling; a site inside a private helper that has no row of its own is charged to
+    # and Result -> Result adaptors in between are spelling; a site inside a helper (private or a new public stage of a split function) that has no row of its own is charged to
     # the functions calling the helper (extracting a loop into a helper keeps the reviewed behaviour of its callers).
     per_row = defaultdict(list)
+    per_row_parts = defaultdict(set)
     n_scope = 0
     groups = defaultdict(list)
     for s_ in sites:
@@ -313,7 +330,7 @@ def run(F, scopes, rule_id="R24"):
         n_scope += len(ss)
         rows = rows_for(root, producer)
         charged = [root]
-        if not rows and vis.get(root) not in ("Public",):
+        if not rows:
             callers = callers or _callers(F)
             seen = {root}
             frontier = [root]
@@ -328,7 +345,7 @@ def run(F, scopes, rule_id="R24"):
                         if rs:
                             rows += rs
                             charged.append(c)
-                        elif vis.get(c) not in ("Public",):
+                        else:
                             nxt.append(c)
                 frontier = nxt
         kinds = ",".join(sorted({x["kind"] for x in ss}))
@@ -342,6 +359,7 @@ def run(F, scopes, rule_id="R24"):
             continue
         for i in set(rows):
             per_row[i] += ss
+            per_row_parts[i].add(producer)
         r.inst(iid, ss[0]["span"], "ok", sites=len(ss), kinds=kinds, charged_to=charged[-1], reviewed=table[rows[0]]["why"])
     roots = {b.path.split("::{closure")[0] for b in F.bodies}
     for i, t in enumerate(table):
@@ -349,7 +367,8 @@ def run(F, scopes, rule_id="R24"):
         if not fns:
             continue
         have = len(per_row.get(i, []))
-        want = t.get("count", 1) * len(fns)
+        parts = t["producer"].split(">")
+        want = t.get("count", 1) * len(fns) * len(parts)
         if have > want:
             iid = "absorb|%s|%s|count" % (t["fn"], t["producer"])
             r.inst(iid, per_row[i][-1]["span"], "violation")
@@ -357,6 +376,15 @@ def run(F, scopes, rule_id="R24"):
                    "%s: %d sites absorb the error of `%s(..)`, %d were reviewed" % (t["fn"], have, t["producer"], want))
         # two-sided: a reviewed recovery (alternative start value, retry) must not silently disappear or be narrowed
         want = t.get("count", 1)          # impls of one trait method share a row; only some of them have the recovery
+        seen_parts = per_row_parts.get(i, set())
+        if t.get("recovery") and len(parts) > 1 and seen_parts and t["producer"] not in seen_parts and not set(parts) <= seen_parts:
+            fn = sorted(fns, key=len)[0]
+            iid = "absorb|%s|%s|removed" % (t["fn"], t["producer"])
+            r.inst(iid, "-", "violation")
+            r.fail(iid, "-",
+                   "%s: of the reviewed chain `%s` only %s is still absorbed: a failure of the other step is no longer rescued by the "
+                   "alternative attempt (%s)" % (fn, t["producer"], sorted(seen_parts), t["why"][:90]))
+            continue
         if t.get("recovery") and have < want:
             fn = sorted(fns, key=len)[0]
             iid = "absorb|%s|%s|removed" % (t["fn"], t["producer"])
